@@ -1014,7 +1014,7 @@ func (e *Engine) sortedFactNames() []string {
 // doTopBottomAudit (C05): TopK/BottomK for n around the current size.
 func (e *Engine) doTopBottomAudit(s *slot, op Op) error {
 	n := uint64(s.model.Len())
-	for _, k := range []uint64{1, n, n + 1} {
+	for _, k := range []uint64{1, n, n + 1, 1 << 31, ^uint64(0)} {
 		for _, m := range []string{"topk", "bottomk"} {
 			if err := e.doSeq(s, Op{T: op.T, Op: m, N: k}); err != nil {
 				return err
